@@ -316,7 +316,8 @@ func verifHarnessC13FileCacheWrite() {
 	var oldIno *verifInode
 	exists := nondetBool("live.exists")
 	if exists {
-		oldIno = &verifInode{content: old, complete: true, durable: old, durableOK: true, mode: 0600, written: true}
+		// whatever mode the existing file has (provisioning, an operator's chmod)
+		oldIno = &verifInode{content: old, complete: true, durable: old, durableOK: true, mode: os.FileMode(nondetU32("old.mode") & 0777), written: true}
 		verifFS.files[path] = oldIno
 	}
 	data := nondetSeq("new.content")
